@@ -284,6 +284,7 @@ def run(ctx):
     res = CR.corpus(ctx.seed, 160 if ctx.quick else 500, log=vlib.log)
     CR.corpus_done(res)
     compile_known = 0
+    must_compile = {"DocListForm", "DocListFormE", "DocBraces", "ZeroArr", "PinnedDef", "MixedDef", "KfAsUnit", "Foo"}
     for ident, why in res["rejected"].items():
         if ident.startswith("query:"):
             continue
@@ -298,10 +299,11 @@ def run(ctx):
                 pass     # serde's own requirements on generated items (skip needs Default): generator artefact, not the ts-rs derive
             else:
                 viol.append(data)
-        elif not own_diagnostic(why):
-            # a diagnostic that is none of the derive's own (`syn_err!` messages of the current source): the derive turned a valid item away
+        elif ident in must_compile and not own_diagnostic(why):
+            # a seed definition written to be valid (for serde_derive too), turned away with a diagnostic that is none of the ts-rs derive's own
+            # (`syn_err!` messages of the current source); on generated definitions such a diagnostic may be serde_derive's and is tolerated
             viol.append(dict(kind="property-violated", what="the derive rejects a valid item with a diagnostic that is none of its own",
-                             definition=ident, diagnostic=why, rust=next((C.to_rust(d) for d in res.get("all_defs", []) if d["ident"] == ident), None), seed=ctx.seed))
+                             definition=ident, diagnostic=why, seed=ctx.seed))
     # items using Rust features the model has no notion of (const parameters with and without defaults, lifetimes, bounds,
     # where clauses, raw identifiers): the derive accepts them, so the expansion has to compile
     extra_bad = extra_items()
